@@ -262,10 +262,10 @@ func (r *SparseReal64Vector) VdivV(a, b ConstVector) Vector {
   for i := 0; i < n; i++ {
     c1 := a.ConstAt(i)
     c2 := b.ConstAt(i)
-    if c1.GetFloat64() != 0.0 || c2.GetFloat64() == 0.0 {
+    if c1.GetFloat64() != 0.0 || c2.GetFloat64() == 0.0 || c1.GetOrder() > 0 {
       r.At(i).Div(c1, c2)
     } else {
-      if r.ConstAt(i).GetFloat64() != 0.0 {
+      if c := r.ConstAt(i); c.GetFloat64() != 0.0 || c.GetOrder() > 0 {
         r.At(i).Reset()
       }
     }
